@@ -505,6 +505,10 @@ func (m *ModSets) guardedComps(li *LockInv, call *ssa.CallCommon) []string {
 	st := styp.Underlying().(*types.Struct)
 	var out []string
 	for _, g := range li.Guards {
+		if strings.HasPrefix(g, "ghost.") {
+			out = append(out, "ghost:"+g[6:])
+			continue
+		}
 		for i := 0; i < st.NumFields(); i++ {
 			if st.Field(i).Name() == g {
 				out = append(out, m.regField(styp, i))
